@@ -338,8 +338,14 @@ func (r *Scanner) inflateContent(contentOffset int64, writer io.Writer, declared
 	}
 	defer gogitsync.PutZlibReader(zr)
 
-	_, err = ioutil.CopyBufferPool(bounded, zr)
-	return err
+	if _, err = ioutil.CopyBufferPool(bounded, zr); err != nil {
+		return err
+	}
+	if bounded.n != declaredSize {
+		return fmt.Errorf("%w: content at offset %d inflates to %d bytes, header declares %d",
+			ErrMalformedPackfile, contentOffset, bounded.n, declaredSize)
+	}
+	return nil
 }
 
 // scan goes through the next stateFn.
@@ -533,11 +539,17 @@ func objectEntry(r *Scanner) (stateFn, error) {
 	// value, so any overrun signals a malformed entry. For delta entries
 	// the declared size is the size of the delta instruction stream, not
 	// the resolved object.
-	mw = &boundedWriter{w: mw, limit: oh.Size}
+	bw := &boundedWriter{w: mw, limit: oh.Size}
 
-	_, err = ioutil.CopyBufferPool(mw, zr)
+	_, err = ioutil.CopyBufferPool(bw, zr)
 	if err != nil {
 		return nil, err
+	}
+	// The stream must yield exactly the declared number of bytes: canonical
+	// Git rejects a short stream as well ("inflate returned 1").
+	if bw.n != oh.Size {
+		return nil, fmt.Errorf("%w: object at offset %d inflates to %d bytes, header declares %d",
+			ErrMalformedPackfile, oh.Offset, bw.n, oh.Size)
 	}
 
 	if err := r.Flush(); err != nil {
